@@ -89,8 +89,9 @@ def run(ctx, clauses=CLAUSES):
 
     # ---- E2 / E3 -----------------------------------------------------------------
     big = []
-    for _ in range(700 if thorough else 90):
-        big.append(sc.random_sinput(rng, FAM, 6 if thorough else 5, 4, 4, min_obj=5))
+    for _ in range(900 if thorough else 260):
+        big.append(sc.random_sinput(rng, FAM, 6 if thorough else 5, 4, 4, min_obj=5,
+                                    costs=sc.SUPER_COSTS if rng.random() < 0.7 else None))
     big += directed_inputs(rng, 500 if thorough else 70)
     tiny3 = list(sc.small_inputs(FAM, gen.bin_shapes(3), gen.bin_shapes(3), LEAF_SYNS, sc.SUPER_COSTS[:1]))
     e2 = (tiny[::2] + mid + tiny3[ctx.seed % 2::2]) if not thorough else tiny + mid + tiny3
